@@ -563,7 +563,7 @@ func fileCase(d fileDesc, thorough bool) hx.Case {
 			continue // not explored (hang limit reached)
 		}
 		o := res[i]
-		if o.Cls == clsCrash || o.Cls == clsHang {
+		if o.Cls == clsCrash || o.Cls == clsHang || o.Cls == clsDep {
 			bad(k, fmt.Sprintf("class %d: %s", o.Cls, o.Msg))
 		}
 		switch d.Format {
@@ -801,6 +801,7 @@ func main() {
 	run.Extra["decode_calls"] = pl.calls
 	run.Extra["hangs"] = pl.hangs
 	run.Extra["decoder_process_deaths"] = pl.died
+	run.Extra["reader_kinds"] = readerKinds
 	run.Extra["deadline"] = "2 s + 1 us/byte per decode, child process, RLIMIT_AS 3 GiB"
 	pl.close()
 	run.Finish()
